@@ -93,7 +93,7 @@ class NDesc(object):
         o = [len(self.nodes)]
         for i, n in enumerate(self.nodes):
             f = n['final'] if finals is None else finals[i]
-            o += [i, int(bool(f)), len(n['cbs'])] + list(n['cbs']) + [self.obj(i)]
+            o += [i, int(bool(f)), len(n['cbs'])] + list(n['cbs'])
         return o + [len(self.mcbs)] + list(self.mcbs)
 
 
@@ -117,7 +117,7 @@ def request(d, roots, entered, finals=None):
 
 
 def parse_answer(ans):
-    """`S <owners> <cbs> C <0 owners cbs | 1> W <wf> <nodup> <noshared>`"""
+    """`S <owners> <cbs> C <0 owners cbs | 1> W <wf> <nodup>`"""
     if not ans.startswith('S '):
         raise common.MachineryError('driver answered %r to a c18 request' % ans[:200])
     s, rest = ans[2:].split(' C ')
@@ -134,7 +134,7 @@ def parse_answer(ans):
     wn = [int(x) for x in w.split()]
     spec = two(sn)
     code = None if cn[0] == 1 else two(cn[1:])
-    return {'spec': spec, 'code': code, 'wf': bool(wn[0]), 'nodup': bool(wn[1]), 'noshared': bool(wn[2])}
+    return {'spec': spec, 'code': code, 'wf': bool(wn[0]), 'nodup': bool(wn[1])}
 
 
 # ---------------------------------------------------------------------------------------------
